@@ -255,13 +255,38 @@ def float_harness(ex):
                      detail=f'alpha={alpha} ndf={ndf} t={tval} p={pv} verdict={bool(res)}')
 
 
+def tiny_harness(ex):
+    """float level, the other end: errors so small that their squares underflow (and errors so large that they overflow).  Equal values
+    are compatible whatever the (defined) errors: d = 0 gives t = 0, or 0/0 which the test maps to 0"""
+    from valjean.eponine.dataset import Dataset
+    from valjean.gavroche.stat_tests.student import TestStudent
+    pool = [0.0, 5e-324, 1e-200, 1e-170, 1e-160, 1.0, 1e160, 1e200]
+    e1 = pool[ex.choice(len(pool), 'error-1')]
+    e2 = pool[ex.choice(len(pool), 'error-2')]
+    v = [0.0, 1.0, 3e-170, -2.5e180][ex.choice(4, 'common-value')]
+    ndf = [None, 5][ex.choice(2, 'ndf')]
+    if ex.flag('scalar-datasets'):
+        a, b = Dataset(np.float64(v), np.float64(e1)), Dataset(np.float64(v), np.float64(e2))
+    else:
+        a, b = Dataset(np.array([v, 1.0]), np.array([e1, 1.0])), Dataset(np.array([v, 1.0]), np.array([e2, 1.0]))
+    with np.errstate(all='ignore'):
+        res = TestStudent(a, b, name='t', alpha=0.01, ndf=ndf).evaluate()
+        ok = bool(res) and bool(np.all(res.oracles()))
+    ex.check(ok, 'float:equal-values-are-compatible-whatever-the-size-of-the-errors', detail=f'value={v} errors={e1}, {e2} ndf={ndf}')
+
+
+def _job_tiny(timeout_ms, seed=0):
+    return run_sym('x', tiny_harness, timeout_ms=timeout_ms, seed=seed,
+                   require_checks=['float:equal-values-are-compatible-whatever-the-size-of-the-errors'])
+
+
 def _job_float(timeout_ms, seed=0):
     return run_sym('x', float_harness, timeout_ms=timeout_ms, seed=seed,
                    require_checks=['float:verdict-agrees-with-the-critical-value-at-extreme-significance-levels'])
 
 
 def jobs(tier):
-    out = [('float-extreme-alpha', _job_float, dict(timeout_ms=30000))]
+    out = [('float-extreme-alpha', _job_float, dict(timeout_ms=30000)), ('float-tiny-and-huge-errors', _job_tiny, dict(timeout_ms=30000))]
     t = 30000 if tier == 'quick' else 300000
     b = BOUNDS[tier]
     shapes = [('scalar', (), True)] + [(s, eval(s), False) for s in b['shapes'] if not s.startswith('scalar')]
@@ -287,6 +312,8 @@ def jobs(tier):
 def replay(rp):
     if rp['job'] == 'float-extreme-alpha':
         return replay_sym(float_harness, rp['inputs'])
+    if rp['job'] == 'float-tiny-and-huge-errors':
+        return replay_sym(tiny_harness, rp['inputs'])
     for j in jobs('thorough') + jobs('quick'):
         if j[0] == rp['job']:
             p = j[2]
